@@ -151,11 +151,14 @@ class Undecided(Exception):
 
 
 class Outcome:
-    """End of one explored path through an activation."""
-    __slots__ = ("kind", "value", "store", "site", "trace")
+    """End of one explored path through an activation.  A 'stop' outcome inside an inlined callee carries the suspended
+    callers (`cont`: [(body, depth, block of the call)], outermost first) and `where` = (callee body, its depth)."""
+    __slots__ = ("kind", "value", "store", "site", "trace", "cont", "where")
 
-    def __init__(self, kind, value, store, site=None, trace=()):
+    def __init__(self, kind, value, store, site=None, trace=(), cont=(), where=None):
         self.kind, self.value, self.store, self.site, self.trace = kind, value, store, site, trace
+        self.cont = tuple(cont)
+        self.where = where
 
     def __repr__(self):
         return "<%s %r @%s>" % (self.kind, self.value, self.site)
@@ -169,7 +172,7 @@ class _Outs:
         self.seen = {}
 
     def keep(self, o):
-        key = ("stop", o.value, frozenset(o.store.items()))
+        key = ("stop", o.value, frozenset(o.store.items()), tuple((b.path, d, k) for b, d, k in o.cont))
         if key not in self.seen:
             self.seen[key] = o
 
@@ -560,6 +563,10 @@ class Interp:
                         work.append((t["otherwise"], st))
             elif k == "call":
                 for kind, v, st2 in self._call(body, frame, t, sp, st, depth):
+                    if kind == "stop":
+                        # a stop point inside an inlined callee: suspend this activation at the call
+                        outs.keep(Outcome("stop", v.value, st2, v.site, cont=((body, depth, bid),) + v.cont, where=v.where))
+                        continue
                     if kind == "panic":
                         outs.append(Outcome("panic", v, st2, body.site(sp)))
                         continue
@@ -576,6 +583,39 @@ class Interp:
 
     def _freeze(self, st, frame):
         return frozenset(st.items())
+
+    def resume(self, o, store, top_stop=()):
+        """Continue from a nested 'stop' outcome `o` (see Outcome.cont / where) with `store`: explores the callee from its
+        stop block, and on its return continues the suspended callers.  Returns outcomes as `run` does."""
+        callee, cdepth = o.where
+        block = o.value[1]
+        return self._resume(list(o.cont), callee, cdepth, block, store, top_stop)
+
+    def _resume(self, cont, body, depth, block, store, top_stop):
+        gs = getattr(self, "global_stops", None) or {}
+        stops = gs.get(body.path, ()) if cont else top_stop
+        res = []
+        for o in self.run(body, [], {}, depth=depth, start=(block, store), stop=stops):
+            if o.kind == "stop":
+                if cont and not isinstance(o.value, tuple):
+                    o = Outcome("stop", (body.path, o.value), o.store, o.site, cont=tuple(cont) + o.cont, where=(body, depth))
+                elif cont:
+                    o = Outcome("stop", o.value, o.store, o.site, cont=tuple(cont) + o.cont, where=o.where)
+                res.append(o)
+            elif o.kind == "ret" and cont:
+                pbody, pdepth, pblock = cont[-1]
+                t = pbody.blocks[pblock]["term"]["t"]
+                st2 = o.store
+                if t["target"] < 0:
+                    res.append(Outcome("panic", "diverging call", st2, o.site))
+                    continue
+                r = self.place_ref(st2, pdepth + 1, t["dest"])
+                if isinstance(r, Ref):
+                    st2 = self.write_ref(st2, r, o.value)
+                res.extend(self._resume(cont[:-1], pbody, pdepth, t["target"], st2, top_stop))
+            else:
+                res.append(o)
+        return res
 
     def apply_closure(self, clos, args, st, depth):
         """Call a closure value (Agg kind 'closure') or fn item with the given argument values."""
@@ -670,7 +710,13 @@ class Interp:
             if "{closure#" in name.rsplit("::", 1)[-1] and callee.arg_count == len(args) + 1:
                 # a non-capturing closure called through a fn pointer: its body still takes the (empty) environment first
                 args = [UNIT] + list(args)
-            for o in self.run(callee, args, st, depth + 1):
+            gs = getattr(self, "global_stops", None) or {}
+            for o in self.run(callee, args, st, depth + 1, stop=gs.get(callee.path, ())):
+                if o.kind == "stop":
+                    if not isinstance(o.value, tuple):
+                        o = Outcome("stop", (callee.path, o.value), o.store, o.site, cont=o.cont, where=(callee, depth + 1))
+                    res.append(("stop", o, o.store))
+                    continue
                 if o.kind == "ret":
                     res.append(("ret", o.value, o.store))
                 elif o.kind == "panic":
